@@ -143,6 +143,7 @@ def _effect(k):
 contract(
     "liquid2.builtin.tags.extends_tag:_store_blocks",
     props=["C08"],
+    note="bounded: proved for templates with one and with two blocks (loop unrolled)",
     # the loop is unrolled for templates with one and with two blocks; names within a template are distinct
     # (checked by _stack_blocks) so iterations act on different stacks
     params={"context": Opaque(_ctx_with_stacks, "context"), "blocks": Union(ConcreteList(Any_), ConcreteList(Any_, Any_)), "source_name": Str},
